@@ -66,7 +66,7 @@ Qed.
 Lemma wf_step sh w l s w' : WF w -> wire_stmt sh w l s = Ok w' -> WF w'.
 Proof.
   intros F Hw. destruct s as [d ins| |h l' p|a b]; cbn [wire_stmt] in Hw.
-  - unfold wire_node in Hw.
+  - unfold wire_node, wire_node_gen in Hw.
     destruct (resolve_inputs (w_env w) (w_phs w) ins) as [rins0|] eqn:R; [|discriminate].
     cbv zeta in Hw. set (rins := eff_inputs d rins0) in *.
     assert (Hpe : inputs_peers rins = inputs_peers rins0).
